@@ -23,6 +23,8 @@ pub struct FindCase {
     pub w: World,
     /// pre-drawn choices used by the check for sampled letters / pairs (all randomness is decoded)
     pub picks: Vec<u16>,
+    /// huge stores: only six records (chosen by `picks`) are probed
+    pub sample_only: bool,
 }
 
 fn decode_find(src: &mut Source, which: Which) -> Box<dyn Case> {
@@ -30,11 +32,33 @@ fn decode_find(src: &mut Source, which: Which) -> Box<dyn Case> {
     if which == Which::C14 {
         o.joined_shapes = true;
     }
+    if which == Which::C03 {
+        // languages assembled through the public Lang API count as languages too
+        o.ext_langs = true;
+    }
     if which == Which::C04 {
         o.max_recs = 6;
     }
     let mut w = gen_world(src, o);
-    if which == Which::C03 && src.chance(1, 40) {
+    let mut sample_only = false;
+    if (which == Which::C03 || which == Which::C13) && src.chance(1, 400) {
+        // a catalogue of 1030-1300 (rarely 4200-5000) records in which one word opens most titles;
+        // only a handful of records are probed (see `sample`)
+        let plain = plain_letters(w.lang);
+        let k = src.range(3, 6);
+        let vocab: Vec<String> = (0..src.range(3, 6)).map(|_| (0..src.range(2, 6)).map(|_| plain[src.below(k)]).collect()).collect();
+        let brand = src.pick(&vocab).clone();
+        let n = if src.chance(1, 8) { src.range(4200, 5000) } else { src.range(1030, 1300) };
+        w.recs = (0..n)
+            .map(|i| {
+                let t = format!("{} {} {}", if src.chance(9, 10) { brand.clone() } else { src.pick(&vocab).clone() }, src.pick(&vocab), src.pick(&vocab));
+                (i + 1, t, src.below(1000))
+            })
+            .collect();
+        w.limit = n + src.below(3);
+        sample_only = true;
+    }
+    if which == Which::C03 && !sample_only && src.chance(1, 40) {
         // a large one-brand catalogue: 65-140 records over a tiny vocabulary, limit >= |store|
         let plain = plain_letters(w.lang);
         let k = src.range(3, 6);
@@ -93,7 +117,7 @@ fn decode_find(src: &mut Source, which: Which) -> Box<dyn Case> {
         w.limit = w.limit.max(w.recs.len());
     }
     let picks = (0..48).map(|_| src.below(1 << 16) as u16).collect();
-    Box::new(FindCase { which, w, picks })
+    Box::new(FindCase { which, w, picks, sample_only })
 }
 
 pub fn decode_c03(src: &mut Source) -> Box<dyn Case> {
@@ -120,6 +144,13 @@ fn found(store: &Store, q: &str, id: usize) -> bool {
 }
 
 impl FindCase {
+    fn sampled(&self, ri: usize, n: usize) -> bool {
+        if !self.sample_only {
+            return true;
+        }
+        // the last record, the first, and four chosen by the pre-drawn picks
+        ri + 1 == n || ri == 0 || (0..4).any(|k| self.picks[10 + k] as usize % n == ri)
+    }
     fn pick(&self, a: usize, b: usize, c: usize, n: usize) -> usize {
         self.picks[(a * 31 + b * 7 + c * 3) % self.picks.len()] as usize % n.max(1)
     }
@@ -128,6 +159,9 @@ impl FindCase {
         let w = &self.w;
         let first_letters: Vec<char> = toks.iter().flat_map(|t| t.words.iter().map(move |wd| t.chars[wd.slice.0])).collect();
         for (ri, t) in toks.iter().enumerate() {
+            if !self.sampled(ri, toks.len()) {
+                continue;
+            }
             let id = w.recs[ri].0;
             for (wi, wd) in t.words.iter().enumerate() {
                 let wchars = &t.chars[wd.slice.0..wd.slice.1];
@@ -161,6 +195,7 @@ impl FindCase {
                         ctx.label_if(vi == 1, "original-spelling");
                         ctx.label_if(w.recs.len() > 64, "store>64");
                         ctx.label_if(wi >= 32, "word-beyond-32nd");
+                        ctx.label_if(w.recs.len() > 1000, "store>1000");
                     }
                 }
             }
@@ -257,6 +292,9 @@ impl FindCase {
     fn check_c13(&self, ctx: &mut Ctx, store: &Store, l: &Lang, toks: &[TextOwn]) -> Result<(), Violation> {
         let w = &self.w;
         for (ri, t) in toks.iter().enumerate() {
+            if !self.sampled(ri, toks.len()) {
+                continue;
+            }
             let id = w.recs[ri].0;
             let n = t.words.len();
             if n == 0 {
@@ -334,6 +372,14 @@ impl FindCase {
                         continue;
                     }
                     ctx.count("split_probes", 1);
+                    if (k + wi) % 4 == 0 {
+                        // something in front of the first typed word (spaces, a dash, a quote)
+                        let lead = ["  ", "- ", "\"", "   ", " . "][(k + wi + ri) % 5];
+                        let ql = format!("{}{}", lead, q);
+                        if !found(store, &ql, id) {
+                            return ctx.fail("split-spelling-not-found", "leading-separator", format!("lang={} title={:?} word {:?} split at {} -> query {:?}: record {} not among hits {:?}", w.lang, w.recs[ri].1, wc.iter().collect::<String>(), k, ql, id, search(store, &ql)));
+                        }
+                    }
                     if !found(store, &q, id) {
                         return ctx.fail("split-spelling-not-found", "", format!("lang={} title={:?} word {:?} split at {} -> query {:?}: record {} not among hits {:?}", w.lang, w.recs[ri].1, wc.iter().collect::<String>(), k, q, id, search(store, &q)));
                     }
